@@ -375,6 +375,8 @@ def show(e, depth=0, maxdepth=12):
     if k == "closure":
         return "|%s| %s" % (", ".join(show_pat(p) for p in e.get("params", [])), show(e["body"], d))
     if k == "block":
+        if e.get("inl") and not e.get("stmts") and e.get("e") is not None:
+            return show(e["e"], depth, maxdepth)      # an inlined helper call without bound arguments reads as the helper's body
         parts = [show(s, d) for s in e.get("stmts", [])]
         if e.get("e") is not None:
             parts.append(show(e["e"], d))
@@ -455,7 +457,7 @@ def show_pat(p):
 
 class Fn:
     __slots__ = ("d", "def_", "crate", "unit", "kind", "file", "line", "parent", "body", "mir", "params",
-                 "impl_self", "impl_trait", "trait_item", "in_trait", "vis", "exported", "_cfg", "ret", "_canon_env")
+                 "impl_self", "impl_trait", "trait_item", "in_trait", "vis", "exported", "_cfg", "ret", "_canon_env", "absorbed", "absorbed_fns", "facts")
 
     def __init__(self, d, crate, unit):
         self.d = d
@@ -477,6 +479,10 @@ class Fn:
         self.exported = d.get("exported")
         self.ret = d.get("ret")
         self._cfg = None
+        self._canon_env = None
+        self.absorbed = False       # an unrecorded helper that is analysed inlined into its callers (vlib/inline.py)
+        self.absorbed_fns = []      # defs of the helpers inlined into this fn
+        self.facts = None
 
     @property
     def loc(self):
@@ -486,7 +492,19 @@ class Fn:
     def cfg(self):
         if self._cfg is None and self.mir is not None:
             from . import cfg as _cfg
-            self._cfg = _cfg.CFG(self.mir)
+            mir = self.mir
+            if self.absorbed_fns and self.facts is not None:
+                # helpers that are analysed inlined (vlib/inline.py): their blocks are spliced in at the call sites
+                fs = self.facts
+
+                def helper_mir(d):
+                    h = fs.fns.get(d)
+                    return h.mir if (h is not None and h.absorbed and h.mir) else None
+                try:
+                    mir = _cfg.splice(self.mir, helper_mir)
+                except Exception:
+                    mir = self.mir
+            self._cfg = _cfg.CFG(mir)
         return self._cfg
 
     def __repr__(self):
@@ -546,10 +564,18 @@ class Facts:
                 if key in self.fns:
                     key = key + "@" + unit
                 self.fns[key] = fn
+                fn.facts = self
                 self.fn_list.append(fn)
                 if fn.kind == "closure" and fn.parent:
                     self.closures_of[fn.parent].append(fn)
         self._cg = None
+        # "extract function" tolerance (vlib/inline.py): unrecorded helpers are analysed inlined into their callers
+        self.inlined = []
+        try:
+            from . import inline
+            self.inlined = inline.apply(self)
+        except Exception as e:      # never let the tolerance layer break a check
+            self.inlined = ["helper inlining disabled: %s" % e]
 
     # ---- lookup
 
@@ -582,7 +608,7 @@ class Facts:
 
     def body_fns(self):
         """Fns that have a HIR body (non-derived fns/methods)."""
-        return [f for f in self.fn_list if f.body is not None]
+        return [f for f in self.fn_list if f.body is not None and not f.absorbed]
 
     def impls_of(self, trait_suffix):
         return [i for i in self.impls if i.get("trait") and (i["trait"] == trait_suffix or i["trait"].endswith("::" + trait_suffix))]
